@@ -31,7 +31,18 @@ def migration_order(repo: Path):
     return batch
 
 
+_TEMPLATES: dict = {}
+
+
 def build_engine(seed=0, repo: Path | None = None, n_tokens=3) -> Engine:
+    """Schema + routines are read from the working tree once per process; every call gets a fresh copy of the tables."""
+    key = (str(Path(repo or REPO)), n_tokens)
+    if key not in _TEMPLATES:
+        _TEMPLATES[key] = _build_engine(0, repo, n_tokens)
+    return _TEMPLATES[key].clone(seed)
+
+
+def _build_engine(seed=0, repo: Path | None = None, n_tokens=3) -> Engine:
     repo = Path(repo or REPO)
     sqldir = repo / "batch" / "sql"
     eng = Engine(seed)
